@@ -9,4 +9,9 @@ func init() {
 		constSpec{"pkg/schema", "bufioReaderSize", "bufioReaderSize", "C15"},
 		constSpec{"pkg/schema", "maxStaticSetMembers", "maxStaticSetMembers", "C15"},
 	)
+	fingerprintSpecs = append(fingerprintSpecs,
+		fpSpec{"pkg/schema", "", "writeFileChunks"}, fpSpec{"pkg/schema", "", "addBytesParts"}, fpSpec{"pkg/schema", "", "uploadBytes"},
+		fpSpec{"pkg/schema", "FileReader", "readerForOffset"}, fpSpec{"pkg/schema", "FileReader", "ReadAt"}, fpSpec{"pkg/schema", "FileReader", "foreachChunk"},
+		fpSpec{"pkg/schema", "Builder", "SetStaticSetMembers"}, fpSpec{"pkg/schema", "", "staticSet"}, fpSpec{"pkg/schema", "", "populateParts"},
+	)
 }
